@@ -147,8 +147,9 @@ def dom4(x, y):
 
 
 def dom(c, phflag, ctx):
-    """the prefix of every hash input: Ed25519 (pure, no context; 5.1: dom2 is the EMPTY string), Ed25519ctx (flag 0, context
-    non-empty), Ed25519ph (flag 1); Ed448 / Ed448ph: always dom4.  The context is at most 255 octets."""
+    """the prefix of every hash input.  5.1: "dom2(x, y) is the blank octet string when signing or verifying Ed25519" (pure, no
+    context); Ed25519ctx (flag 0, non-empty context) and Ed25519ph (flag 1, any context) use dom2(F, C).  5.2: Ed448 and Ed448ph
+    always use dom4(F, C).  The context is at most 255 octets (octet(OLEN(y)))."""
     if c == ED25519:
         if phflag == 0 and len(ctx) == 0:
             return b''
@@ -168,10 +169,12 @@ def group_eq(B, A, R, S, k):
 
 
 def verify_ok(c, B, A, ctx, phflag, PHM, sig):
-    """5.1.7 / 5.2.7 for the public key A (a group element; its encoding ENC(A) enters the hash), context ctx, flag phflag and (pre-hashed) message PHM:
-    1. the signature is two b/8-octet halves; the first decodes as a point R, the second as an integer S in {0, ..., L-1}
-    2. k = H(dom(F, C) || R || A || PH(M)) interpreted as a little-endian integer (reduction mod L does not change [k]A'
-       up to the cofactor and is what 5.1.6 / 5.2.6 do on the signing side)
+    """5.1.7 / 5.2.7 for the public key A (a group element; its encoding ENC(A) enters the hash), context ctx, flag phflag and
+    (pre-hashed) message PHM:
+    1. the signature is two b/8-octet halves; the first decodes as a point R, the second as an integer S in {0, ..., L-1};
+       "if any of the decodings fail (including S being out of range), the signature is invalid"
+    2. k = H(dom(F, C) || R || A || PH(M)) interpreted as a little-endian integer.  It is reduced mod L here, as 5.1.6 / 5.2.6 do
+       when signing: [8][k]A = [8][k mod L]A because [8]A lies in the subgroup of order L (the group has order 8 L resp. 4 L)
     3. the group equation"""
     b = blen(c)
     if len(sig) != 2 * b:
